@@ -250,6 +250,9 @@ class Kernel:
             # not a task process (git, tar, ...): the real thing
             self.ev("real_spawn", argv=argv[:4])
             return self._real["fork_exec"](*a)
+        if any("\0" in x for x in argv):
+            # what the real _fork_exec does with such an argument vector (before anything is forked)
+            raise ValueError("embedded null byte")
         self.enter("fork_exec")
         pid = self.next_pid
         self.next_pid += 1
